@@ -28,7 +28,9 @@ chk.extra['rule'] = ('residue chains (2-4 residues, template atoms N CA C O CB [
                      'stream of two-iteration interactions (groups sharing a residue with keys [r], [r,r], [r,s]; '
                      'known and unknown attachments in both processing orders); a stream of sites where a modification fits '
                      'only with an extra bond among the matched atoms next to a genuine site (rings); a stream where a '
-                     'template atom carries the name of an added atom of a larger modification (stand-ins); '
+                     'template atom carries the name of an added atom of a larger modification (stand-ins); a stream of '
+                     'residues with a modification annotated on the input plus further unrecognised groups on the same '
+                     'or the bonded residue, keys ordered both ways; '
                      'a case is non-trivial if it has >= 1 flagged atom and >= 2 candidate placements in one '
                      'iteration; distinct = distinct protocol line')
 chk.trusted.append('harness/c14.py: object construction, recording wrappers, canonicalisation, Python oracle '
@@ -305,6 +307,30 @@ def py_placements(snap, edges, mod):
     return out
 
 
+def py_name_placements(snap, edges, atoms, mod):
+    """induced placements of `mod` inside the atoms `atoms`, nodes matched by atom name only"""
+    sub = {t: v for t, v in snap.items() if t in atoms}
+    eset = set(edges)
+    madj = {frozenset(e) for e in mod.edges}
+    mnodes = list(mod.nodes)
+    out = []
+
+    def rec(i, assign):
+        if i == len(mnodes):
+            out.append({t: p for p, t in assign.items()})
+            return
+        p = mnodes[i]
+        for t in sub:
+            if t in assign.values() or sub[t][0] != mod.nodes[p].get('atomname', ''):
+                continue
+            if all((frozenset((p, q)) in madj) == (tuple(sorted((s_, t))) in eset) for q, s_ in assign.items()):
+                assign[p] = t
+                rec(i + 1, assign)
+                del assign[p]
+    rec(0, {})
+    return out
+
+
 def exact_cover_exists(nonptm, to_cover, placements):
     """Is there a set of placements, each inside nonptm | to_cover, covering every atom of
     to_cover, PTM atoms exactly once?"""
@@ -440,25 +466,51 @@ def oracle(spec, mods, mol0, mol, run):
                     if attr == 'atomname' and len(writers[(a, attr)]) == 1 and a in mol.nodes \
                             and '_old_atomname' not in mol.nodes[a]:
                         errs.append('atom %d renamed without _old_atomname' % a)
-    # removal only when no exact cover exists
+    # removal only when no explanation by known modifications exists.  A group annotated on the input
+    # is explained when each annotated modification has an induced placement by atom name inside the
+    # group and these placements cover the group; the other groups of the iteration are explained when an
+    # exact cover by induced placements (anchors by name, added atoms by element) exists.
+    annot = {k: ml for k, r, p, h, ml, at in spec['atoms']}
     for ii, it in enumerate(run['iters']):
         if it['result'] is not None:
             continue
         snap = it['snap']
         if any(a not in snap for g in it['groups'] for a in g[0]):
             continue  # an atom with a foreign resid: outside the residue, nothing can be placed on it
-        if any(spec_mods_of(spec, a) for g in it['groups'] for a in g[0]):
-            continue  # pre-labelled groups are not searched
-        nonptm = frozenset(t for t, v in snap.items() if not v[2])
-        tc = set()
-        for g in it['groups']:
-            tc |= g[0] | g[1]
-        allp = []
-        for mod in mods:
-            allp += py_placements(snap, it['edges'], mod)
-        if exact_cover_exists(nonptm, tc, [set(p) for p in allp]):
-            errs.append('atoms %s were removed although known modifications cover them exactly'
-                        % sorted(a for g in it['groups'] for a in g[0]))
+        plain = [g for g in it['groups'] if not any(annot.get(a) for a in g[0])]
+        noted = [g for g in it['groups'] if any(annot.get(a) for a in g[0])]
+        explained = True
+        for g in noted:
+            wanted = []
+            for a in sorted(g[0]):
+                for mi in annot.get(a) or []:
+                    if mi not in wanted:
+                        wanted.append(mi)
+            covered = set()
+            for mi in wanted:
+                pls = py_name_placements(snap, it['edges'], g[0], mods[mi])
+                if not pls:
+                    explained = False
+                for pl in pls:
+                    covered |= set(pl)
+            if covered != set(g[0]):
+                explained = False
+        if explained and plain:
+            nonptm = frozenset(t for t, v in snap.items() if not v[2])
+            tc = set()
+            for g in plain:
+                tc |= g[0] | g[1]
+            allp = []
+            for mod in mods:
+                allp += py_placements(snap, it['edges'], mod)
+            explained = exact_cover_exists(nonptm, tc, [set(p) for p in allp])
+        if explained:
+            errs.append('atoms %s were removed / reported as unknown input although known modifications cover '
+                        'them exactly' % sorted(a for g in it['groups'] for a in g[0]))
+    # an atom the residue template accounted for is never removed
+    for k, r, p, h, ml, at in spec['atoms']:
+        if not p and k not in mol.nodes:
+            errs.append('recognised template atom %d (%s) is missing from the output' % (k, at.get('atomname')))
     return errs
 
 
@@ -615,7 +667,9 @@ def gen_case(rng):
             place[a[0]] = idx[nm]
         if not okp:
             continue
-        pre = rng.random() < 0.08 and src in lib   # applied through `modify`: canonical names, pre-labelled
+        # applied through `modify`: canonical names, pre-labelled (only patterns with distinct atom names:
+        # apply_mod_to_block works on one block whose atom names are unique)
+        pre = rng.random() < 0.08 and src in lib and len({a[2]['atomname'] for a in matoms}) == len(matoms)
         foreign = rng.random() < 0.05
         for a in ptm_m:
             attrs = A(a[2]['atomname'] if pre else 'X%d' % key, a[2]['element'],
@@ -881,6 +935,81 @@ def gen_standin(rng):
     return {'atoms': atoms, 'edges': edges, 'mods': mods, 'hist': ['standin_' + big, 'standin_template=%d' % len(template)]}
 
 
+def gen_annot(rng):
+    """a residue that carries a modification annotated on the input (as RepairGraph leaves it after
+    `-modify`: canonical names, no PTM flag, `modifications` on every atom of the modification) AND one or
+    two further groups of unrecognised atoms on the same residue or bridging to the bonded neighbour;
+    the keys of the annotated and the plain groups are ordered both ways"""
+    L = lib_fixed()
+    L['MCG'] = ([[0, 0, A('CG', 'C'), None], [1, 1, A('HX', 'H'), None]], [[0, 1]])                      # group key [r]
+    L['MCB'] = ([[0, 0, A('CB', 'C'), None], [1, 1, A('HB9', 'H'), {'atomname': 'HB9'}]], [[0, 1]])      # key [r, r]
+    L['MN2'] = ([[0, 0, A('N', 'N'), None], [1, 0, A('CA', 'C'), None], [2, 1, A('H2', 'H'), None],
+                 [3, 1, A('H3', 'H'), None]], [[0, 1], [0, 2], [0, 3]])                                  # key [r-1, r] or [r]
+    L['MC'] = ([[0, 0, A('C', 'C'), None], [1, 0, A('O', 'O'), None], [2, 1, A('OXT', 'O'), None]], [[0, 1], [0, 2]])
+    ann = rng.choice(['MCG', 'MCB', 'MN2', 'MC'])
+    names = [ann, 'NH', 'OXT', 'SH', 'RING', 'XL'] + rng.sample(['COOH', 'PHOS', 'ANCHOR', 'OO', 'ME', 'MCG', 'MCB'], rng.randint(0, 2))
+    names = list(dict.fromkeys(names))
+    rng.shuffle(names)
+    mods = [{'name': n, 'atoms': copy.deepcopy(L[n][0]), 'edges': copy.deepcopy(L[n][1])} for n in names]
+    atoms, edges, byres, key = chain(rng, 2)
+    ri = rng.randrange(2)
+    rid, idx = byres[ri]
+    hist = ['annot_' + ann]
+    mi = names.index(ann)
+    place = {}
+    for a in L[ann][0]:
+        if a[1]:
+            atoms.append([key, rid, 0, 0, [mi], A(a[2]['atomname'], a[2]['element'], resname='ALA')])
+            place[a[0]] = key
+            key += 1
+        else:
+            place[a[0]] = idx[a[2]['atomname']]
+            for at in atoms:
+                if at[0] == place[a[0]]:
+                    at[4] = [mi]
+    for u, v in L[ann][1]:
+        e = [place[u], place[v]]
+        if e not in edges and e[::-1] not in edges:
+            edges.append(e)
+    if rng.random() < 0.4:
+        for at in atoms:
+            if at[1] == rid:
+                at[3] = 1            # the `modification` key set by the annotation step
+    annotated_anchor = {a[2]['atomname'] for a in L[ann][0] if not a[1]}
+
+    def add(rid_, elem, bonds):
+        nonlocal key
+        atoms.append([key, rid_, 1, 0, [], A('X%d' % key, elem, resname='UNK')])
+        for b in bonds:
+            edges.append([b, key])
+        key += 1
+
+    for _ in range(rng.choice([1, 1, 2])):
+        kind = rng.choice(['NH', 'OXT', 'SH', 'RING', 'XL', 'NH_other', 'mixed'])
+        known = rng.random() < 0.7
+        if kind == 'NH' and 'N' not in annotated_anchor:
+            add(rid, 'H' if known else 'P', [idx['N']])
+        elif kind == 'OXT' and 'C' not in annotated_anchor:
+            add(rid, 'O' if known else 'P', [idx['C']])
+        elif kind == 'SH' and 'CB' not in annotated_anchor:
+            add(rid, 'S' if known else 'P', [idx['CB']])
+        elif kind == 'RING' and not ({'CA', 'CB'} & annotated_anchor):
+            add(rid, 'O' if known else 'S', [idx['CA'], idx['CB']])
+        elif kind == 'XL' and 'CB' not in annotated_anchor:
+            add(rid, 'S' if known else 'O', [idx['CB'], byres[1 - ri][1]['CB']])
+        elif kind == 'NH_other':
+            add(byres[1 - ri][0], 'H' if known else 'P', [byres[1 - ri][1]['N']])
+        elif kind == 'mixed':
+            # an unrecognised atom bonded to an annotated atom: same group as the annotation
+            add(rid, rng.choice('HOS'), [place[rng.choice(sorted(place))]])
+        else:
+            continue
+        hist.append('annot+%s_%s' % (kind, 'known' if known else 'unknown'))
+    if rng.random() < 0.3:
+        rng.shuffle(atoms)
+    return {'atoms': atoms, 'edges': edges, 'mods': mods, 'hist': hist}
+
+
 # ----------------------------------------------------------------------------
 # run
 # ----------------------------------------------------------------------------
@@ -898,6 +1027,9 @@ for i in range(N // 3):
 rng3 = chk.rng('rings')
 for i in range(N // 4):
     cases.append(('ring-%d' % i, gen_ring(rng3)))
+rng5 = chk.rng('annotated')
+for i in range(N // 3):
+    cases.append(('annot-%d' % i, gen_annot(rng5)))
 rng4 = chk.rng('stand-ins')
 for i in range(N // 4):
     cases.append(('standin-%d' % i, gen_standin(rng4)))
